@@ -114,9 +114,10 @@ PROPS = {
         modules=[P + "C03"],
         theorems=[P + "C03." + t for t in ("no_lost_wakeup", "release_serves_head", "arrivals_at_tail", "cancelled_never_served", "cancel_keeps_invariant",
                                           "waiter_implies_full_seq", "wait_deadline", "wait_timeout_zero_is_none", "fifo_no_overtaking", "fifo_queue_order",
-                                          "wait_not_early", "wait_not_early_pending", "wait_not_early_reachable", "wait_prompt", "wait_only_shrinks", "gave_up_never_granted")]
+                                          "wait_not_early", "wait_not_early_pending", "wait_not_early_reachable", "wait_prompt", "wait_only_shrinks", "gave_up_never_granted",
+                                          "abandoned_never_granted", "cancel_makes_gone", "disconnect_answers_waiters")]
                  + ["Ldlm.Table.run_inv", "Ldlm.Table.no_overtaking", "Ldlm.Table.queue_order", "Ldlm.Core.run_pu",
-                    "Ldlm.Core.advanceTo_wait_not_early", "Ldlm.Core.advanceTo_wait_prompt"],
+                    "Ldlm.Core.advanceTo_wait_not_early", "Ldlm.Core.advanceTo_wait_prompt", "Ldlm.Core.run_pq", "Ldlm.Core.step_evok", "Ldlm.Core.step_gone"],
         streams=[CONC, SEQ],
         level_text="For every schedule of any number of threads (M1): a non-empty queue means every unit is taken (no lost wake-up), a release hands the unit to the head of the queue and arrivals join at the tail (FIFO), a waiter that gave up is out of the queue and cannot be served later, and giving up preserves the invariant (does not delay the others). Timed part over M2: the wait deadline is exactly now + w*10^9 iff w > 0, 0/absent = none; the sequential no-lost-wake-up holds in every reachable state. Tied to the code by conc templates (release x waiter arrival x wait time-out x cancel, 1-2 waiters, coinciding instants) and seqdiff with exact virtual return times and a FIFO / early- / late-time-out monitor.",
         level_note="PARTIAL: 'promptly' is exact only in virtual time; real-time promptness and fair scheduling are the Go runtime's (trusted). Shutdown: the manager alone dead-locks with an un-cancellable blocked waiter (observation in DESIGN §2); through cmd/server the network layer cancels waiters first (C11). A theorem that a pending call completes at exactly its deadline under `advance` (wait_timeout_exact) is not yet proved; it is checked by the seq monitor.",
@@ -202,7 +203,7 @@ PROPS = {
         theorems=[P + "C15." + t for t in ("same_request_same_step", "paired_runs_agree", "keys_cross_transports", "renew_cross_transports", "refused_request_invisible")]
                  + ["Ldlm.Rest.sim_step", "Ldlm.Rest.paired_agree", "Ldlm.Core.advance_now"],
         status={},
-        streams=[RESTMODEL, REST, RESTWIRE],
+        streams=[RESTMODEL, REST, RESTWIRE, STACK],
         level_text="M4 puts the gateway's session table in front of M2: a REST request under a valid cookie and a gRPC request on a connection are both Core.step of the same service call under the lock-server session bound to the cookie / the connection; the error code in the answer comes from one regenerated table on both transports. Proved: at any state the two transports change the server identically and answer identically for the same session; for two fresh servers and EVERY well-formed request sequence (any number of sessions, any TryLock/Unlock/Renew parameters, any gaps) shorter than the REST session timeout, the run through the gateway and the run over gRPC end in equal lock-server states, give equal answers request by request, and no REST request is refused (forward simulation, induction over the sequence); on one server an Unlock/Renew has the same effect and answer through any REST session and any gRPC connection (keys cross transports); a refused REST request never reaches the server. Tied to the code by restmodel (M4 vs the real gateway and service object with both transports interleaved on one server, channel-by-channel after every operation) by the model-independent paired run of two real servers (all proto3-JSON spellings, malformed bodies, bounded-exhaustive words), and by the same paired run over the wire: the real http.Server on a loopback listener with every REST session of a sequence sharing one keep-alive connection.",
         level_note="paired_runs_agree needs: requests only on open sessions (a closed connection cannot send) and total duration < RestSessionTimeout (no idle expiry on the REST side, which has no gRPC counterpart); idle expiry itself is C20. JSON decoding is library code (grpc-gateway, protojson): exercised by the paired stream, not modelled. Trusted: Lean kernel, hand-written M4/M2, uuid freshness of cookies, the differential ties.",
         technique="Lean 4 proof (forward simulation between the REST run and the gRPC run of any request sequence; per-state transport equivalence) + differential correspondence of the gateway model + paired real-server differential",
@@ -389,7 +390,7 @@ FPMAP = {
     "C02": ["lockobj", "mgr_get", "mgr_ops", "srv_lock", "srv_unlock", "srv_timeout", "timer"],
     "C03": ["lockobj", "mgr_ops", "mgr_shutdown", "srv_lock"],
     "C04": ["timer", "srv_lock", "srv_renew", "srv_timeout", "srv_unlock"],
-    "C05": ["timer", "srv_unlock", "srv_renew", "srv_timeout", "mgr_ops"],
+    "C05": ["timer", "srv_unlock", "srv_renew", "srv_timeout", "mgr_ops", "srv_sess"],
     "C06": ["srv_sess", "srv_lock", "srv_unlock", "srv_timeout", "sess", "grpc_conn", "rest_end", "lockobj"],
     "C07": ["srv_lock", "srv_unlock", "srv_renew", "srv_key", "mgr_get", "mgr_ops", "sess", "timer"],
     "C08": ["srv_locks", "srv_unlock", "srv_renew", "srv_timeout", "srv_sess", "sess", "store", "srv_new"],
@@ -399,7 +400,7 @@ FPMAP = {
     "C12": ["srv_lock", "srv_renew", "mgr_get", "grpc_svc"],
     "C13": ["mgr_gc", "mgr_get", "mgr_ops"],
     "C14": ["grpc_svc", "srv_lock", "srv_unlock", "srv_renew", "client_err", "rest_run"],
-    "C15": ["rest", "grpc_svc", "grpc_conn"],
+    "C15": ["rest", "grpc_svc", "grpc_conn", "grpc_run"],
     "C16": ["rest_auth", "grpc_run", "sec"],
     "C17": ["store"],
     "C18": ["ipc", "ipc_srv", "admin", "srv_locks", "srv_unlock", "srv_new", "sess"],
